@@ -3,7 +3,8 @@ import json, os, subprocess
 from concurrent.futures import ThreadPoolExecutor
 from vlib import common
 
-THEOREMS = ["C10_dc_blocks_exact", "C10_basis_table", "C10_zero_block", "C10_annexA_sample_in_kernel"]
+THEOREMS = ["C10_dc_blocks_exact", "C10_basis_table", "C10_zero_block", "C10_annexA_sample_in_kernel",
+            "C10_full_blocks_accurate", "C10_full_blocks_peak_error"]
 BRIDGES = ["BridgeTables"]
 VT = "python3-vt"
 
